@@ -1,6 +1,7 @@
 import Orca.Gen.RefTables
 import Orca.Lemmas.Ops
 import Orca.Lemmas.Preserve
+import Orca.Gen.MapSites
 /-!
 # C07 — global references stay bound to the same global across edits
 Shares the index-space theorems of C06 (`Orca.Edit.encode_spec`); this file adds the global-specific parts:
@@ -63,5 +64,11 @@ theorem c07_global_refs_after_any_history (s0 : St) (h0 : StInv s0) (ops : List 
     ∨ (∃ s' why, encode s = (s', Ret.panic why) ∧ ∃ r ∈ allRefs s, Dangling s r) :=
   let h := spaceInv_after s0 h0 ops hn
   c07_global_refs _ h.1 h.2.1 h.2.2
+
+/-- **the uses of the global map inside `encode_internal` this model was written against** (see `c06_function_map_uses_reviewed`):
+    table initialisers, global initialisers, global exports, element expressions and offsets, the code loop, data offsets,
+    the global names -/
+theorem c07_global_map_uses_reviewed :
+    Orca.Gen.mapUsesGlobal = ["resolve-special:global:pass", "tables:global:pass", "globals:global:pass", "exports:global:get", "elements:global:pass", "elements:global:pass", "code:global:pass", "code:global:pass", "code:global:pass", "code:global:pass", "code:global:use", "code:global:use", "data:global:pass", "names:global:get"] := by decide
 
 end Orca.Edit
